@@ -108,7 +108,21 @@ pub fn check(cfg: &Config, ops: &[Op]) -> (Vec<(String, String)>, u64, bool) {
     }
     cmp(&e, "before the first message", &mut v, &mut points, &mut seen_some);
     for (k, op) in ops.iter().enumerate() {
+        // whatever is reported, a conversion must not change it ("identical before and after conversion") - this
+        // also covers keys the pattern never conveys, where the model allows both showing and withholding
+        let conv_side = match op {
+            Op::ToTransport { side } | Op::ToStateless { side } | Op::TryIntoTransport { side } | Op::TryIntoStateless { side } => Some(*side),
+            _ => None,
+        };
+        let before = conv_side.map(|s| e.getters(s));
         e.step(op);
+        if let (Some(s), Some(b)) = (conv_side, before) {
+            let a = e.getters(s);
+            if b.phase == 0 && (a.phase == 1 || a.phase == 2) && a.rs != b.rs {
+                let phase = ["HandshakeState", "TransportState", "StatelessTransportState"][usize::from(a.phase)];
+                v.push((format!("{phase}::get_remote_static differs from what the HandshakeState reported just before the conversion"), format!("{} {s:?} step {k} {op:?}: before {:?} after {:?}", e.cfg.name, b.rs.as_ref().map(hex::encode), a.rs.as_ref().map(hex::encode))));
+            }
+        }
         if e.desync {
             // real and model disagree on success: not this property's business (C02/C07)
             break;
